@@ -105,6 +105,22 @@ for k, v in SEQ.items():
     cat, tech, text, note = P[k]
     P[k] = (cat, tech + '; plus exhaustive bounded sequence spaces: ' + v, text + ' In addition (rounds 7-8): ' + v + '. All exhaustive within the stated bounds; see DESIGN.md section 4a.', note)
 
+# Route / scale / relation spaces added in rounds 9-11 (DESIGN.md section 4a): appended likewise.
+R9 = {
+ 'C01': 'every relation between consecutive blocks of a foreign-written resource list, re-signed (resigned.block_lists); issuers holding 1..129 (1025) blocks x every single-range claim over two strides through verify_issued and through certificates (resources.scale)',
+ 'C02': 'block count x position of the queried item inside its block for AS, IPv4 and IPv6 (blocks.position); every compared identifier in every length around the expected one, primitive and constructed (identifier.spelling)',
+ 'C06': '512 source items x 12 public construction routes of their component values, client data compared by ==, Hash, Ord and set membership both ways (rtr.construction_routes)',
+ 'C07': 'header acquisition route (Header::read, as_mut fill, Header::new, the header try_read hands back) as a dimension of every dispatching reader in the round-trip, truncation and header-corruption spaces',
+ 'C09': '28 sink behaviours (short, alternating, interrupted, buffered, failing once / for good after every n octets) x every file value (sinks.*); 14 URI construction routes x case spellings (routes.uri_constructors)',
+ 'C11': 'every resource set a message carries through 17-19 public construction routes from every block list <= 3 (4) over both ends of the number space, all set pairs x 7 operations, round trip judged against the mathematically expected set (resources.routes.*, prov.resource_routes)',
+ 'C12': '32 structured authorities (default ports, trailing dot, brackets, escapes, userinfo shapes) x schemes x tails, all ordered pairs and joins (authority_forms); TalUri construction routes (wrappers.taluri)',
+ 'C13': 'every public route that yields a value of the property\'s types: ASPA builder/decoder, ROA, RTR PDUs, SLURM, Arbitrary (routes.*)',
+ 'C16': 'every cut position of 1- and 2-PDU streams through every read route (wire.fragments)',
+}
+for k, v in R9.items():
+    cat, tech, text, note = P[k]
+    P[k] = (cat, tech + '; ' + v, text + ' Rounds 9-11 added: ' + v + '.', note)
+
 QUICK_ONLY = set()
 BUILT = [l.strip() for l in open(os.path.join(V, 'tools', 'built.txt')) if l.strip() and not l.startswith('#')]
 
